@@ -292,7 +292,8 @@ def check(run, replay=None):
                 return False
             v, _d = evaluate(o1[0], c1.get(o1[0], []), m1.get(o1[0], []))
             return any(k.split(":")[0] == base for k, _ in v)
-        small = G.shrink(lines, still) if len(first_of_key) <= 12 else lines
+        is_known = any(re.fullmatch(k["key"], key) for k in run.known)
+        small = G.shrink(lines, still) if (len(first_of_key) <= 12 and not is_known) else lines
         r = run_script(exe, drv, "\n".join(small) + "\n")
         run.violation(key, what, "kind: input\n" + "\n".join(small) + "\n--- implementation\n" + r[1][-6000:] + "\n--- model\n" + r[4][-3000:] +
                       ("\n--- stderr\n" + r[2][-2500:] if r[2] else ""))
